@@ -26,7 +26,7 @@ LEVEL = "fault_enumeration"
 TECHNIQUE = "exhaustive fault-position enumeration (every function call as the failing one) x exception types x execution modes, with all deviation-bounded task schedules explored for the executor modes"
 RULE = ("mapped pipelines of C03's family and G-DAG pipelines N<=2 with all decorations (thorough: N=3), including histories of two failures on one pipeline object, x every (function, call index) as the failing invocation x "
         "exception {ValueError('boom', k), KeyError(), custom picklable class with an attribute} x {pipeline(), run, func(), sequential map, deferred executor: every "
-        "schedule with <= B deviations, sync and async, real thread pool, real process pool (thorough), sequential with show_progress=True, sequential with profile=True (one pipeline; nothing may be left running)}; plus a failing function whose argument cannot be copied (a lock) or is recognised by identity (a sentinel), through pipeline(), run and map: same exception, snapshot present, reproduce() raises it again; the note shows every argument the failing invocation received (strings and whole arrays). non-trivial = distinct (pipeline, failing function, call index, "
+        "schedule with <= B deviations, sync and async, real thread pool, real process pool (thorough), sequential with show_progress=True, sequential with profile=True (one pipeline; nothing may be left running)}; plus a failing function whose argument cannot be copied (a lock) or is recognised by identity (a sentinel), through pipeline(), run and map: same exception, snapshot present, reproduce() raises it again; the same for a failure inside a NestedPipeFunc (snapshot attribute readable before any call, printable afterwards); the note shows every argument the failing invocation received (strings and whole arrays). non-trivial = distinct (pipeline, failing function, call index, "
         "exception type, mode) where the failing call is not the first call of the run")
 ASSUMPTIONS = ["'loadable afterwards' is demanded for file_array storage (dict storages persist only at the end of a successful run)",
                "for pipeline()/run the 'later generation' clause is checked as: nothing runs after the failing call and no dependent of the failing function ran",
@@ -296,6 +296,66 @@ def special_argument_cases(which):
     return out
 
 
+def nested_snapshot_case():
+    """a pipeline whose functions were combined by nest_funcs: the snapshot attribute exists before any call, and after a
+    failure inside the nested function the same exception surfaces, a snapshot exists, can be printed and reproduces it"""
+    from pipefunc import PipeFunc, Pipeline
+    out = []
+    base = {"mode": "nested-pipefunc"}
+
+    def f(x):
+        return f"f({x})"
+
+    def g(y):
+        raise ValueError("boom", y)
+    with contextlib.redirect_stdout(io.StringIO()), warnings.catch_warnings():
+        warnings.simplefilter("ignore")
+        p = Pipeline([PipeFunc(f, "y"), PipeFunc(g, "z")])
+        p.nest_funcs("*")
+        try:
+            if p.error_snapshot is not None:
+                out.append(({"kind": "snapshot-before-failure", **base}, "a nested pipeline has an error_snapshot before any call"))
+        except Exception as e:  # noqa: BLE001
+            out.append(({"kind": "snapshot-attribute-raises", "when": "before-any-call", "exc": type(e).__name__, **base},
+                        f"pipeline.error_snapshot of a pipeline with a NestedPipeFunc raised {e!r} before any call"))
+        for entry in ("call", "map"):
+            try:
+                if entry == "call":
+                    p("z", x="<x>")
+                else:
+                    p.map({"x": "<x>"}, parallel=False, storage="dict")
+            except ValueError as e:
+                if e.args != ("boom", "f(<x>)"):
+                    out.append(({"kind": "exception-changed", "got": "ValueError", "entry": entry, **base}, f"{entry}: caller got {e!r}"))
+                    continue
+            except Exception as e:  # noqa: BLE001
+                out.append(({"kind": "exception-changed", "got": type(e).__name__, "entry": entry, **base}, f"{entry}: the user's ValueError surfaced as {e!r}"))
+                continue
+            else:
+                out.append(({"kind": "failure-swallowed", "entry": entry, **base}, f"{entry}: no exception"))
+                continue
+            try:
+                snap = p.error_snapshot
+                if snap is None:
+                    out.append(({"kind": "no-snapshot", "entry": entry, **base}, f"{entry}: pipeline.error_snapshot is None after the failure"))
+                    continue
+                str(snap)
+            except Exception as e:  # noqa: BLE001
+                out.append(({"kind": "snapshot-unusable", "exc": type(e).__name__, "entry": entry, **base},
+                            f"{entry}: reading / printing pipeline.error_snapshot after a failure inside a NestedPipeFunc raised {e!r}"))
+                continue
+            try:
+                r = snap.reproduce()
+            except ValueError as e:
+                if e.args != ("boom", "f(<x>)"):
+                    out.append(({"kind": "reproduce-differs", "entry": entry, **base}, f"{entry}: reproduce() raised {e!r}"))
+            except Exception as e:  # noqa: BLE001
+                out.append(({"kind": "reproduce-differs", "entry": entry, **base}, f"{entry}: reproduce() raised {e!r}"))
+            else:
+                out.append(({"kind": "reproduce-returns", "entry": entry, **base}, f"{entry}: reproduce() returned {r!r}"))
+    return out
+
+
 def generations(spec):
     gen = {}
     prod = {o: f["name"] for f in spec["funcs"] for o in f["outs"]}
@@ -510,7 +570,7 @@ def plan(tier, seed):
     for fname, k in map_faults("two-maps-reduce"):
         if k == 1:
             units.append(("map-sequential-and-thread-pool", ("profile", {"pipe": "two-maps-reduce"}, {"func": fname, "call": 1, "exc": "ValueError"})))
-    for which in ("uncopyable", "identity"):
+    for which in ("uncopyable", "identity", "nested"):
         units.append(("map-sequential-and-thread-pool", ("special", which)))
     stages = ["N1", "N2", "N2-decorated", "N2-special-names"] if tier == "quick" else ["N1", "N2", "N2-decorated", "N2-special-names", "N3"]
     for st in stages:
@@ -541,7 +601,7 @@ def run_unit(unit):
     if kind == "special":
         acc.case(hash(("special", unit[1])), n=3)
         acc.stratum("special-arguments")
-        for sig, text in special_argument_cases(unit[1]):
+        for sig, text in (nested_snapshot_case() if unit[1] == "nested" else special_argument_cases(unit[1])):
             acc.violation(sig, {"kind": "special", "which": unit[1]}, text)
         return acc
     if kind == "map":
@@ -597,7 +657,7 @@ def run_unit(unit):
 
 def replay(art):
     if art["kind"] == "special":
-        return [s for s, _ in special_argument_cases(art["which"])]
+        return [s for s, _ in (nested_snapshot_case() if art["which"] == "nested" else special_argument_cases(art["which"]))]
     if art["kind"] == "profile":
         return [s for s, _ in profile_fault_case(art["cfg"], art["fault"])]
     if art["kind"] == "dag2":
